@@ -54,6 +54,9 @@ package fallback
 //@   ensures calls(entryExec) == 1 ==> arg(entryExec, 0, 0) == f.secondary && arg(entryExec, 0, 2) == qCtxS
 //@   ensures !f.alwaysStandby && calls(entryExec) == 1 ==> callpos(chanRecv, 0) >= 0 && callpos(chanRecv, 0) < callpos(entryExec, 0) && (arg(chanRecv, 0, 0) == primFailed || arg(chanRecv, 0, 0) == timer.C)
 //@   ensures !f.alwaysStandby && calls(chanRecv) >= 1 && arg(chanRecv, 0, 0) == primDone && arg(chanRecv, 0, 0) != timer.C ==> calls(entryExec) == 0
+// without always_standby the secondary was started BECAUSE the primary failed or is slow: its
+// result is reported at once (first answer to arrive wins) — it never waits for the primary again
+//@   ensures !f.alwaysStandby && calls(entryExec) == 1 ==> calls(chanSend) == 1 && lastpos(chanRecv) < callpos(entryExec, 0)
 //@   ensures calls(chanSend) == 1 ==> arg(chanSend, 0, 0) == respChan && (ret(entryExec, 0) != nil ==> arg(chanSend, 0, 1) == nil)
 //@   ensures f.alwaysStandby && calls(chanSend) == 1 && arg(chanSend, 0, 1) != nil ==> lastpos(chanRecv) > callpos(entryExec, 0) && (lastarg(chanRecv, 0) == primFailed || lastarg(chanRecv, 0) == timer.C || lastarg(chanRecv, 0) == ret(makeDdlCtx, 0, 0).Done())
 
